@@ -31,7 +31,7 @@ META = {
 
 TUS = ["src/splitter/kfold.cpp", "src/splitter/random.cpp", "src/splitter.cpp", "src/core/sampling.cpp", "src/gboost/sampler.cpp"]
 
-N = sym("n", positive=True)
+N = sp.Symbol("n", integer=True, positive=True)
 IDIV = sp.Function("idiv")
 
 
